@@ -109,7 +109,10 @@ def _chunk(args):
         if res.get("interleaving"):
             agg["interleavings"].add(res["interleaving"])
         for k, v in res.get("probes", {}).items():
-            agg["probes"][k] = agg["probes"].get(k, 0) + int(v)
+            if k.endswith("_max"):
+                agg["probes"][k] = max(agg["probes"].get(k, 0), int(v))
+            else:
+                agg["probes"][k] = agg["probes"].get(k, 0) + int(v)
         for k, v in res.get("faults", {}).items():
             agg["faults"][k] = agg["faults"].get(k, 0) + int(v)
         agg["sim_us"] += res.get("sim_us", 0)
@@ -189,7 +192,10 @@ def explore(prop, verif_seed, tier, runs, time_cap_s, chunk, watchdog):
                     total["states"] |= agg["states"]
                     total["interleavings"] |= agg["interleavings"]
                     for k, v in agg["probes"].items():
-                        total["probes"][k] = total["probes"].get(k, 0) + v
+                        if k.endswith("_max"):
+                            total["probes"][k] = max(total["probes"].get(k, 0), v)
+                        else:
+                            total["probes"][k] = total["probes"].get(k, 0) + v
                     for k, v in agg["faults"].items():
                         total["faults"][k] = total["faults"].get(k, 0) + v
                     for k in ("sim_us", "steps", "fault_free", "faulty"):
